@@ -18,6 +18,8 @@ import ZnVerif.Ops.C15
 import ZnVerif.Ops.C13
 import ZnVerif.Ops.Lex
 import ZnVerif.Ops.TextMethods
+import ZnVerif.Ops.Lines
+import ZnVerif.Ops.VarInput
 
 open ZnVerif.Ops
 
@@ -38,7 +40,9 @@ def handlers : List (String → List String → Option String) := [
   C10.handle,
   C20.handle,
   Parse.handle,
-  ErrLine.handle
+  VarInput.handle,
+  ErrLine.handle,
+  Lines.handle
 ]
 
 def dispatch (op : String) (args : List String) : String :=
